@@ -23,8 +23,10 @@ CLAIMS = {
             "Static, partial by design: decides that every invalid call (no configuration, bad mode, workers <= 0, weight/objective "
             "mismatch, negative weights) is rejected with ValueError before the first hook, that a float-or-list objective value is "
             "never used arithmetically unguarded, that the seed sink is int-typed, and that no scalar division in optimizer code has a "
-            "denominator over max_cycles/cycle/population_size that vanishes on the valid configuration domain. The first sentence of "
-            "the property (no internal error for every valid input) is NOT decided.",
+            "denominator over max_cycles/cycle/population_size/workers/n_agents that vanishes on the valid configuration domain; that no "
+            "stdlib math partial function is applied to cost-derived data; and that no new in-place float update of an integer-capable "
+            "array (position / bounds dtype) appears beyond the 6 baseline sites that already fail on integer tasks today. The rest of the first "
+            "sentence of the property (no internal error for every valid input) is NOT decided.",
             "Crash freedom over data-dependent numpy behaviour is out of reach of a static argument; annotations are taken as types.",
             "DESIGN.md 4/C06"),
     "C11": ("structural rules on the pooled paths: exactly-once hand-off, pairing at submission, per-class worker purity (effect scan over the call graph), RNG stream distinctness of submitted callables",
@@ -136,7 +138,8 @@ CLAIMS = {
             "Static effect analysis: for each of the 84 optimizers every function reachable from optimize() is scanned and "
             "every external reference classified against a randomness source table; np.random.seed(task.seed) must be the "
             "only seeding call and precede every hook; Task.seed must be int-typed; no draw in constructors, module/class "
-            "bodies or defaults. Decides `no source of randomness escapes the seed` for all inputs in serial mode.",
+            "bodies or defaults; no sequence is built from a set whose elements are not provably ints (hash-seed dependent order). "
+            "Decides `no source of randomness escapes the seed` for all inputs in serial mode.",
             "Trusts numpy legacy RNG determinism, a deterministic user objective, CPython int-set / dict iteration order; "
             "closed-world guard R0.",
             "DESIGN.md 4/C07"),
@@ -144,9 +147,10 @@ CLAIMS = {
             "Static who-may-write analysis over all 500+ functions of optimizer classes: no store, augmented store, delete, "
             "setattr or mutating call may reach a value rooted at self._config / self._task / the task parameter (local "
             "aliases, closure variables, loop variables, views, alias fields followed); such values are not passed to callees "
-            "whose parameter-write summary writes them; no self-writing model method is reachable from optimize(). Holds "
-            "for all inputs, configurations and modes.",
-            "Trusts numpy/pydantic freshness summaries (call results are fresh unless listed as views); the user objective "
+            "whose parameter-write summary writes them; no self-writing model method is reachable from optimize(); shallow copies "
+            "(model_copy() / copy.copy) of those objects share their mutable fields and are followed; a task-method result that an "
+            "optimizer changes in place must be a fresh object. Holds for all inputs, configurations and modes.",
+            "Trusts numpy/pydantic freshness summaries (library call results are fresh unless listed as views; the task's own methods are checked); the user objective "
             "does not mutate the task; closed-world guard R0.",
             "DESIGN.md 4/C09"),
     # id: (technique, level text, level note, design ref)
